@@ -16,8 +16,8 @@ Definition after_of (n : N) : after_t :=
   if n =? 0 then AfPlain else if n =? 1 then AfTLS else if n =? 2 then AfPeekErr else if n =? 3 then AfHandshakeErr else AfH2.
 
 Definition mkval (rd : N) (closing connect mreq mitm_ : bool) (rt st : N) (mres rwc : bool) (cn w : N)
-                 (drain reqclose : bool) (after : N) : val :=
-  Build_val (rd_of rd) closing connect mreq mitm_ (rt_of rt) (st_of st) mres rwc (cn_of cn) (w_of w) drain reqclose (after_of after).
+                 (drain reqclose : bool) (after : N) (closing_w : bool) : val :=
+  Build_val (rd_of rd) closing connect mreq mitm_ (rt_of rt) (st_of st) mres rwc (cn_of cn) (w_of w) drain reqclose (after_of after) closing_w.
 
 Definition mkfeat (win : bool) (op : N) (rec cert ech alert : bool) (st : option N)
                   (auth deny prohibited canceled https : bool) (text : N) (timeout : bool) : feat :=
@@ -55,7 +55,8 @@ Record obs := {
   o_total : list (str * Z);       (* http_requests_total by "code|method" *)
   o_lact : Z;                     (* listener_cx_active *)
   o_dact : Z;                     (* dialer_cx_active *)
-  o_harness_ok : bool
+  o_harness_ok : bool;
+  o_shutdown : bool               (* the harness shut the proxy down during the case: the property does not apply *)
 }.
 
 (* ---- what the model predicts ---- *)
@@ -189,6 +190,7 @@ Fixpoint statuses_agree (xs : list ex) (ws : list N) : bool :=
 Definition n_reads (tr : list tev) : Z := Z.of_nat (length (filter (fun e => t_read e && t_hasreq e) tr)).
 
 Definition obs_prop_ok (o : obs) : bool :=
+  o_shutdown o ||
   paired None (o_trace o) &&
   statuses_agree (o_exs o) (wrote_statuses (o_trace o)) &&
   forallb (fun kv => Z.eqb (snd kv) 0%Z) (o_inflight o) &&
